@@ -1,6 +1,9 @@
 import Model.NumberTheory
 import Proofs.NTGcd
 import Proofs.NTTable
+import Proofs.NTPrime
+import Proofs.NTNext
+import Proofs.NTFact
 /-!
 # C16 — primality, next prime, factorisation, gcd, lcm match their definitions
 
@@ -44,6 +47,131 @@ theorem is_prime_false_below_two (lg : Int → Int) (n : Int) (hn : n < 2) : isP
     omega
 
 example : isPrime (fun _ => 0) 1223 = .ok true ∧ isPrime (fun _ => 0) 1227 = .ok false ∧ isPrime (fun _ => 0) (-7) = .ok false := by
+  decide +kernel
+
+/-! ## Miller–Rabin part -/
+
+/-- `is_prime` returns a boolean for every integer: none of `IndexError` (`smallprimes[i]`, `smallprimes[-1]`) or the
+loop budget is reachable -/
+theorem is_prime_total (lg : Int → Int) (n : Int) : ∃ b, isPrime lg n = .ok b := isPrime_total' lg n
+
+/-- **`is_prime` never rejects a prime**, of any size, for every round count the table can choose and every value of
+the float-derived `lg` (Fermat + "x² = 1 ⇒ x = ±1" in the field `ZMod n`; the gcd pre-filter cannot reject a prime
+above 1229) -/
+theorem is_prime_complete (lg : Int → Int) (n : Nat) (hp : n.Prime) : isPrime lg n = .ok true :=
+  isPrime_complete lg n hp
+
+/-- `NTProofs.SPRP n a`: `n − 1 = 2^s·r`, `r` odd, and `a^r ≡ 1` or `a^(2^j·r) ≡ −1 (mod n)` for some `j < s`.
+`True` above the table means: no factor 2, 3, 5, 7, 11 and a strong probable prime to each of the first `t` primes,
+`t` = the round count chosen from the bit-length table (between 2 and 40) -/
+theorem is_prime_true_is_sprp (lg : Int → Int) (n : Nat) (h : 1229 < n) (ht : isPrime lg n = .ok true) :
+    Nat.gcd n 2310 = 1 ∧ (∀ a ∈ Gen.NT.smallprimes.take (mrRounds (Gen.NT.mr_n_bits (lg n))).toNat, SPRP n a) ∧
+    2 ≤ (mrRounds (Gen.NT.mr_n_bits (lg n))).toNat ∧ (mrRounds (Gen.NT.mr_n_bits (lg n))).toNat ≤ 40 := by
+  obtain ⟨h1, h2⟩ := isPrime_true_sprp lg n h ht
+  have := mrRounds_range (Gen.NT.mr_n_bits (lg n))
+  exact ⟨h1, h2, by omega, by omega⟩
+
+/-- the first 12 bases are the primes 2 … 37 -/
+example : Gen.NT.smallprimes.take 12 = [2, 3, 5, 7, 11, 13, 17, 19, 23, 29, 31, 37] := by decide +kernel
+
+/-- **PARTIAL — exactness below 2^64.**  Full statement wanted: for every `n < 2^64`, `is_prime(n) ⇔ n prime`.
+Proved here under two explicit hypotheses (NOT axioms):
+* `ψ` — no composite `1229 < m < 2^64` is a strong probable prime to all of the first 12 prime bases.  This is the
+  cited computational result ψ₁₂ = 318665857834031151167461 > 2^64 (Sorenson–Webster 2015, "Strong pseudoprimes to
+  twelve prime bases"); it cannot be re-derived by kernel evaluation (≈ 40 integers/s, DESIGN.md C16);
+* `hlg` — the float-derived `int(math.log(n, 2))` is below 299 for `n < 2^64` (true value ≤ 63), so that the round
+  table yields at least 12 rounds (it yields 40 when `lg n < 99`).
+What is missing for the unconditional statement is exactly `ψ`. -/
+theorem is_prime_exact_below_2_64_partial (lg : Int → Int)
+    (ψ : ∀ m : Nat, 1229 < m → m < 2 ^ 64 → (∀ a ∈ Gen.NT.smallprimes.take 12, SPRP m a) → m.Prime)
+    (hlg : ∀ n : Int, 1229 < n → n < 2 ^ 64 → lg n < 299)
+    (n : Int) (hn : n < 2 ^ 64) :
+    ∃ b, isPrime lg n = .ok b ∧ (b = true ↔ 0 ≤ n ∧ n.toNat.Prime) := by
+  by_cases hs : n ≤ 1229
+  · exact is_prime_exact_small lg n hs
+  · obtain ⟨N, rfl⟩ : ∃ N : Nat, n = N := ⟨n.toNat, by omega⟩
+    obtain ⟨b, hb⟩ := isPrime_total' lg N
+    refine ⟨b, hb, ?_⟩
+    simp only [Int.toNat_natCast, Int.natCast_nonneg, true_and]
+    constructor
+    · rintro rfl
+      obtain ⟨_, h2⟩ := isPrime_true_sprp lg N (by omega) hb
+      apply ψ N (by omega) (by exact_mod_cast hn)
+      intro a ha
+      apply h2
+      have h12 : 12 ≤ (mrRounds (Gen.NT.mr_n_bits (lg N))).toNat := by
+        have := mrRounds_ge_12 (Gen.NT.mr_n_bits (lg N)) (by
+          have := hlg N (by omega) hn
+          simp only [Gen.NT.mr_n_bits]; omega)
+        omega
+      exact List.take_subset_take_left _ h12 ha
+    · intro hp
+      rw [isPrime_complete lg N hp] at hb
+      cases hb; rfl
+
+/-- non-vacuity of the Miller–Rabin theorems: a prime and a strong pseudoprime to base 2 above the table, a Carmichael
+number; `lg` = exact ⌊log₂⌋ -/
+example : isPrime (fun n => n.toNat.log2) 1231 = .ok true ∧ isPrime (fun n => n.toNat.log2) 2047 = .ok false ∧
+    isPrime (fun n => n.toNat.log2) 1373653 = .ok false ∧ isPrime (fun n => n.toNat.log2) 8911 = .ok false ∧
+    isPrime (fun n => n.toNat.log2) 2305843009213693951 = .ok true := by decide +kernel
+
+/-! ## next_prime -/
+
+/-- `next_prime(n)` for every `n` and every `lg`: it terminates (Bertrand's postulate bounds the scan), returns 2 below
+2, otherwise a value `r > n` that `is_prime` accepts, and **no prime is skipped**: there is no prime strictly between
+`n` and `r` (unconditional, by `is_prime_complete`) -/
+theorem next_prime_no_prime_skipped (lg : Int → Int) (n : Int) :
+    (n < 2 → nextPrime lg n = .ok 2) ∧
+    (2 ≤ n → ∃ r : Nat, nextPrime lg n = .ok (r : Int) ∧ n < r ∧ isPrime lg r = .ok true ∧
+      ∀ q : Nat, n < q → q < r → ¬ q.Prime) := by
+  refine ⟨nextPrime_small lg n, fun h => ?_⟩
+  obtain ⟨N, rfl⟩ : ∃ N : Nat, n = N := ⟨n.toNat, by omega⟩
+  obtain ⟨r, h1, h2, h3, h4⟩ := nextPrime_spec lg N (by omega)
+  exact ⟨r, h1, by exact_mod_cast h2, h3, fun q hq => h4 q (by exact_mod_cast hq)⟩
+
+/-- **PARTIAL — `next_prime(n)` is the smallest prime greater than `n`.**  Proved under the hypothesis that `is_prime`
+is sound at the returned value (`hsound`; below 2^64 this follows from `is_prime_exact_below_2_64_partial`, i.e. from ψ).
+Missing for the unconditional statement: soundness of the fixed-base Miller–Rabin test at the returned value. -/
+theorem next_prime_minimal_partial (lg : Int → Int) (n : Int)
+    (hsound : ∀ m : Nat, n < m → isPrime lg m = .ok true → m.Prime) :
+    ∃ r : Nat, nextPrime lg n = .ok (r : Int) ∧ r.Prime ∧ n < r ∧ ∀ q : Nat, q.Prime → n < q → r ≤ q := by
+  by_cases h : n < 2
+  · refine ⟨2, (next_prime_no_prime_skipped lg n).1 h, Nat.prime_two, by omega, fun q hq _ => hq.two_le⟩
+  · obtain ⟨r, h1, h2, h3, h4⟩ := (next_prime_no_prime_skipped lg n).2 (by omega)
+    refine ⟨r, h1, hsound r h2 h3, h2, fun q hq hnq => ?_⟩
+    by_contra hlt
+    exact h4 q hnq (by omega) hq
+
+example : nextPrime (fun n => n.toNat.log2) 1229 = .ok 1231 ∧ nextPrime (fun n => n.toNat.log2) (-5) = .ok 2 ∧
+    nextPrime (fun n => n.toNat.log2) 2046 = .ok 2053 := by decide +kernel
+
+/-! ## factorization -/
+
+/-- `factorization(n)` for every integer `n` and every `lg`: `[]` below 2; otherwise `[(p₁,e₁),…]` with `∏ pᵢ^eᵢ = n`,
+strictly ascending bases `≥ 2`, exponents `≥ 1`, and every base prime **unconditionally** (least-divisor argument for the
+small-prime loop, the odd-divisor loop and its leftover) — except the single last entry `(n', 1)`, `n' > 1229`, appended
+by the shortcut `if is_prime(n): result.append((n, 1))`, which is as prime as `is_prime` says (second disjunct). -/
+theorem factorization_spec (lg : Int → Int) (n : Int) :
+    (n < 2 → factorization lg n = .ok []) ∧
+    (2 ≤ n → ∃ fs, factorization lg n = .ok fs ∧
+        (fs.map (fun f => f.1 ^ f.2.toNat)).prod = n ∧
+        (fs.map Prod.fst).Pairwise (· < ·) ∧
+        (∀ f ∈ fs, 1 ≤ f.2) ∧
+        (∀ f ∈ fs, 2 ≤ f.1) ∧
+        (∀ f ∈ fs, f.1.toNat.Prime ∨
+          (1229 < f.1 ∧ f.2 = 1 ∧ isPrime lg f.1 = .ok true ∧ f = fs.getLast?.getD f))) :=
+  NTProofs.factorization_spec lg n
+
+/-- with `is_prime` sound at the cofactor (e.g. below 2^64 under ψ) every base is prime -/
+theorem factorization_all_prime (lg : Int → Int) (n : Int) (hn : 2 ≤ n)
+    (hsound : ∀ m, 1229 < m → isPrime lg m = .ok true → m.toNat.Prime) :
+    ∃ fs, factorization lg n = .ok fs ∧ ∀ f ∈ fs, f.1.toNat.Prime :=
+  NTProofs.factorization_all_prime lg n hn hsound
+
+example : factorization (fun _ => 0) 360 = .ok [(2, 3), (3, 2), (5, 1)] ∧
+    factorization (fun _ => 0) (1231 * 1231) = .ok [(1231, 2)] ∧
+    factorization (fun _ => 20) (2 * 1231 * 1237) = .ok [(2, 1), (1231, 1), (1237, 1)] ∧
+    factorization (fun _ => 10) (4 * 1231) = .ok [(2, 2), (1231, 1)] ∧ factorization (fun _ => 0) (-7) = .ok [] := by
   decide +kernel
 
 /-! ## gcd / lcm: any number (≥ 1) of natural arguments, both calling conventions -/
